@@ -269,6 +269,13 @@ func (r *Runner) Observe(cases []*Case, target string, want func(i int) *Obs) []
 	return res
 }
 
+// ObserveAlone compiles and runs one case as a program of its own.
+func (r *Runner) ObserveAlone(k *Case, target string) Obs {
+	o := r.runOne(fl.Render(k.P), target)
+	o.Alone = true
+	return o
+}
+
 // WantObs converts a reference outcome to the observation it prescribes.
 func WantObs(w fl.Outcome) *Obs {
 	return &Obs{Accepted: true, Lines: w.Lines, Term: w.Term}
